@@ -6,10 +6,11 @@
 use arrharness::*;
 
 /// Unequal-but-broadcastable argument shapes (rank >= 2 against `[1]`, `[2,3]` against `[3]`, `[2,1]` against `[1,3]`, …).
-/// The pinned `broadcast` is defective for those (property C03).  Off = equal shapes + rank-1 against `[1]` only;
-/// switch on (or run with C17_FULL_BROADCAST=1) once the C03 repair is in /repo.
-const FULL_BROADCAST: bool = false;
-fn full_broadcast() -> bool { FULL_BROADCAST || std::env::var("C17_FULL_BROADCAST").map_or(false, |v| v == "1") }
+/// The snapshot's `broadcast` was defective for those (property C03); the repair is in /repo since `e71698d`
+/// ("fix: broadcasting aligns shapes at the trailing axis"), so this is on.  C17_FULL_BROADCAST=0 restricts the
+/// generator to equal shapes + rank-1 against `[1]` (what the snapshot handled correctly).
+const FULL_BROADCAST: bool = true;
+fn full_broadcast() -> bool { std::env::var("C17_FULL_BROADCAST").map_or(FULL_BROADCAST, |v| v == "1") }
 
 const ALPHA: [char; 11] = ['a', 'b', 'A', 'B', '0', '1', ' ', '-', ',', '\n', '\r'];
 const SMALL: [char; 3] = ['a', 'b', '-'];
@@ -184,7 +185,7 @@ const PAIR_OPS: &[&str] = &["add", "join", "partition", "rpartition", "count", "
 const UNARY_OPS: &[&str] = &["capitalize", "lower", "upper", "swapcase", "str_len", "is_alpha", "is_alnum", "is_decimal", "is_numeric",
     "is_digit", "is_space", "is_lower", "is_upper"];
 
-fn corpus(out: &mut dyn FnMut(String)) {
+fn corpus(out: &mut dyn FnMut(String), late: &mut Vec<String>) {
     // minimised past failures (pinned tree): see fixes/C17-*.md
     out(format!("rsplit 1:{} 1:{} none", hex("ab-cd-ef"), hex("-")));
     out(format!("rsplit 1:{} 1:{} none", hex("a<>b<>c"), hex("<>")));
@@ -198,14 +199,17 @@ fn corpus(out: &mut dyn FnMut(String)) {
     out(format!("zfill 2:{},{} 0", hex("-5"), hex("5")));
     out(format!("replace 1:{} 1:{} 1:{} 2", hex("aab"), hex("ab"), hex("b")));
     out(format!("replace 1:{} 1:{} 1:{} 2", hex("ab"), hex("a"), hex("ba")));
-    out(format!("replace 1:{} 1:{} 1:{} none", hex("a"), hex("a"), hex("aa")));
-    out(format!("replace 1:{} 1:{} 1:{} none", hex("ab"), hex(""), hex("-")));
+    late.push(format!("replace 1:{} 1:{} 1:{} none", hex("a"), hex("a"), hex("aa")));
+    late.push(format!("replace 1:{} 1:{} 1:{} none", hex("ab"), hex(""), hex("-")));
 }
 
 fn gen(tier: &str, seed: u64, out: &mut dyn FnMut(String)) {
     let thorough = tier == "thorough";
     let full = full_broadcast();
-    corpus(out);
+    // `replace` cases of the corpus / broadcast / random sections are emitted with the replace block at the very end:
+    // on the snapshot some of them never return, and the watchdog gives up after a dozen hangs
+    let mut late: Vec<String> = vec![];
+    corpus(out, &mut late);
 
     // ---- one-argument operations: every string up to length 4 (quick: 3)
     let uni: Vec<String> = strings_upto(&ALPHA, if thorough { 4 } else { 3 }).iter().map(|s| hex(s)).collect();
@@ -285,7 +289,20 @@ fn gen(tier: &str, seed: u64, out: &mut dyn FnMut(String)) {
         for (k, op) in ["equal", "not_equal", "greater_equal", "less_equal", "greater", "less"].iter().enumerate() { pack(&[s2.clone(), p2.clone()], k, out, &|a| format!("{op} {} {}", a[0], a[1])); }
     }
 
-    // ---- full broadcasting (switched off until the C03 repair lands)
+    // ---- repetitive texts: subjects up to length 6 (quick 4) x patterns up to length 3 over {a,b,-} (overlapping occurrences)
+    {
+        let subj = strings_upto(&SMALL, if thorough { 6 } else { 4 });
+        let pats = strings_upto(&SMALL, 3);
+        let (mut s, mut p, mut m) = (vec![], vec![], vec![]);
+        for (i, x) in subj.iter().enumerate() { let hx = hex(x); for (j, y) in pats.iter().enumerate() { s.push(hx.clone()); p.push(hex(y)); m.push(((i + 2 * j) % 6).to_string()); } }
+        for (k, op) in ["partition", "rpartition", "count", "find", "rfind", "starts_with", "ends_with", "strip"].iter().enumerate() { pack(&[s.clone(), p.clone()], k, out, &|a| format!("{op} {} {}", a[0], a[1])); }
+        for op in ["split", "rsplit"] {
+            pack(&[s.clone(), p.clone()], 9, out, &|a| format!("{op} {} {} none", a[0], a[1]));
+            pack(&[s.clone(), p.clone(), m.clone()], 11, out, &|a| format!("{op} {} {} {}", a[0], a[1], a[2]));
+        }
+    }
+
+    // ---- full broadcasting
     if full {
         let strs: Vec<String> = ["a-b", "", "ab-", "-", "b a-", "A1", " a ", "a,b", "aa", "b-b-b", "x", "-a-", "ba", "0", "a\nb", "  "].iter().map(|x| hex(x)).collect();
         let take = |n: usize, off: usize| -> String { (0..n).map(|i| strs[(i + off) % strs.len()].clone()).collect::<Vec<_>>().join(",") };
@@ -297,8 +314,8 @@ fn gen(tier: &str, seed: u64, out: &mut dyn FnMut(String)) {
             let nums = |n: usize| (0..n).map(|i| (i % 6).to_string()).collect::<Vec<_>>().join(",");
             for op in PAIR_OPS.iter().chain(["lstrip", "rstrip", "strip"].iter()) { out(format!("{op} {a} {b}")); }
             for op in ["split", "rsplit"] { out(format!("{op} {a} {b} none")); out(format!("{op} {a} {b} 1:2")); out(format!("{op} {a} {b} {}:{}", show_list(sb), nums(nb))); }
-            out(format!("replace {a} {b} 1:{} none", hex("+")));
-            out(format!("replace {a} 1:{} {b} 1", hex("-")));
+            late.push(format!("replace {a} {b} 1:{} none", hex("+")));
+            late.push(format!("replace {a} 1:{} {b} 1", hex("-")));
             out(format!("multiply {a} {}:{}", show_list(sb), nums(nb)));
             out(format!("splitlines {a} {}:{}", show_list(sb), (0..nb).map(|i| (i % 2).to_string()).collect::<Vec<_>>().join(",")));
             for op in ["center", "ljust", "rjust"] {
@@ -326,6 +343,23 @@ fn gen(tier: &str, seed: u64, out: &mut dyn FnMut(String)) {
             let new: Vec<String> = (0..n).map(|i| if rng.below(3) == 0 { format!("{}{}", pat[i], rand_str(&mut rng, 2, alpha)) } else { rand_str(&mut rng, 3, alpha) }).collect();
             let a = format!("{sh}:{}", subj.iter().map(|s| hex(s)).collect::<Vec<_>>().join(","));
             let scalar = shape.len() == 1 && rng.below(3) == 0;
+            if full && case % 4 == 3 {
+                // a second operand of a different, broadcastable shape: unit axes and dropped leading axes
+                let mut sb: Vec<usize> = shape.iter().map(|&d| if rng.below(2) == 0 { 1 } else { d }).collect();
+                let dropn = rng.below(sb.len()); sb.drain(..dropn);
+                let nb: usize = sb.iter().product();
+                let bb = format!("{}:{}", show_list(&sb), (0..nb).map(|i| hex(&pat[i % n])).collect::<Vec<_>>().join(","));
+                let nn = format!("{}:{}", show_list(&sb), (0..nb).map(|_| rng.below(7).to_string()).collect::<Vec<_>>().join(","));
+                let op = *rng.pick(PAIR_OPS);
+                out(format!("{op} {a} {bb}")); out(format!("{op} {bb} {a}"));
+                let sp = *rng.pick(&["split", "rsplit"]);
+                out(format!("{sp} {a} {bb} {nn}")); out(format!("{sp} {bb} {a} none"));
+                out(format!("{} {a} {bb}", rng.pick(&["lstrip", "rstrip", "strip"])));
+                out(format!("{} {a} {nn} none", rng.pick(&["center", "ljust", "rjust"])));
+                out(format!("{} {bb} {sh}:{} 1:2a", rng.pick(&["center", "ljust", "rjust"]), (0..n).map(|_| rng.below(9).to_string()).collect::<Vec<_>>().join(",")));
+                out(format!("multiply {a} {nn}"));
+                late.push(format!("replace {a} {bb} 1:{} {}", hex("+"), rng.pick(&["none", "1", "2"])));
+            }
             let b = if scalar { format!("1:{}", hex(&pat[0])) } else { format!("{sh}:{}", pat.iter().map(|s| hex(s)).collect::<Vec<_>>().join(",")) };
             let c = format!("{sh}:{}", new.iter().map(|s| hex(s)).collect::<Vec<_>>().join(","));
             let lim = if scalar { format!("1:{}", rng.below(5)) } else { format!("{sh}:{}", (0..n).map(|_| rng.below(6).to_string()).collect::<Vec<_>>().join(",")) };
@@ -339,8 +373,7 @@ fn gen(tier: &str, seed: u64, out: &mut dyn FnMut(String)) {
             out(format!("{} {a}", rng.pick(UNARY_OPS)));
             out(format!("splitlines {a} {}", rng.pick(&["none", "1:1", "1:0"])));
             let cnt = if rng.below(2) == 0 { "none".to_string() } else { rng.below(5).to_string() };
-            // non-empty `old` only here; the empty pattern is enumerated below
-            if pat.iter().all(|p| !p.is_empty()) && !scalar { out(format!("replace {a} {b} {c} {cnt}")); }
+            if !scalar { late.push(format!("replace {a} {b} {c} {cnt}")); }
             let w = format!("{sh}:{}", (0..n).map(|_| rng.below(30).to_string()).collect::<Vec<_>>().join(","));
             out(format!("{} {a} {w} {}", rng.pick(&["center", "ljust", "rjust"]), rng.pick(&["none", "1:2a", "1:30"])));
         }
@@ -364,6 +397,7 @@ fn gen(tier: &str, seed: u64, out: &mut dyn FnMut(String)) {
         let counts: &[&str] = if thorough { &["none", "0", "1", "2", "3"] } else { &["none", "1", "2"] };
         // (a) patterns that cannot re-create themselves, (b) the rest (new contains old, or old empty)
         for risky in [false, true] {
+            if risky { for l in late.drain(..) { out(l); } }
             let (mut s, mut o, mut n) = (vec![], vec![], vec![]);
             for x in &subj { for old in &pats { for new in &pats {
                 let r = rescans(x, old, new);
